@@ -25,7 +25,8 @@ func (c13) Info() core.Info {
 	return core.Info{
 		Level: "exploration",
 		Rule: "seeded sessions: macros with 0..4 parameters, each unquoted 0..3 times inside a quoted template drawn from an expression grammar (infix, prefix, arrays, calls, if/else, lambdas, map access, println), are defined in one input and used 1..5 times in the same and in later inputs, " +
-			"at top level and nested in functions, loops and other macro arguments, with argument expressions that have side effects (println) or looser-binding operators; failing inputs are interleaved between definition and use. " +
+			"at top level and nested in functions, loops and other macro arguments, with argument expressions that have side effects (println) or looser-binding operators; failing inputs are interleaved between definition and use; macros are redefined between uses (new template, parameters permuted, renamed or of another count) and later uses must follow the new definition; " +
+			"the current definitions plus a use are also delivered as one program text through eval() to a fresh session that never saw a macro. " +
 			"Reference model: textual substitution done by the harness on the template source (each unquote(p) -> '(' + argument source + ')'), parsed by the real parser. Oracles: structural dump of State.ExpandMacros(program) equals that of the hand-substituted program; " +
 			"its printed form (normal and compact) re-parses to the same dump; evaluation output/value equal those of the hand-substituted program on a macro-free session (side effects once per occurrence, none at expansion time); " +
 			"the dump of use 1 re-taken after later uses were expanded and evaluated is unchanged (no node sharing, definition unaltered). " +
@@ -40,7 +41,7 @@ func (c13) Budget(tier string) core.Budget {
 	if tier == "thorough" {
 		return core.Budget{Runs: 300000, WallCap: 20 * time.Minute}
 	}
-	return core.Budget{Runs: 4000, WallCap: 45 * time.Second}
+	return core.Budget{Runs: 20000, WallCap: 60 * time.Second}
 }
 
 type macroDef struct {
@@ -167,10 +168,58 @@ func (c13) Generate(r *core.Rng, run int, tier string) *core.History {
 		}
 		h.Events = append(h.Events, core.Event{Ev: "define", Name: strings.Join(names, ","), Val: "unquote(", Text: strings.Join(batch, "\n")})
 	}
+	version := map[string]int64{}
+	for _, d := range defs {
+		version[d.name] = 1
+	}
+	versionsOf := func(src string) string {
+		var parts []string
+		for _, d := range defs {
+			if strings.Contains(src, d.name+"(") {
+				parts = append(parts, fmt.Sprintf("%s:%d", d.name, version[d.name]))
+			}
+		}
+		return strings.Join(parts, ",")
+	}
 	nu := 1 + r.Intn(5)
 	for i := 0; i < nu; i++ {
 		if r.Bool(.2) {
 			h.Events = append(h.Events, core.Event{Ev: "fail", Text: core.Pick(r, failTemplates).text(r, nil)})
+		}
+		if i > 0 && r.Bool(.25) {
+			// redefinition of an existing macro: new template, parameters permuted, renamed or of another count;
+			// later uses must follow the new definition
+			k := r.Intn(len(defs))
+			np := r.Intn(5)
+			params := append([]string(nil), macroParamPool[:np]...)
+			switch r.Intn(3) {
+			case 0:
+				for a := len(params) - 1; a > 0; a-- {
+					b := r.Intn(a + 1)
+					params[a], params[b] = params[b], params[a]
+				}
+			case 1:
+				for j := range params {
+					params[j] = fmt.Sprintf("r%d", j+1)
+				}
+			}
+			nd := macroDef{name: defs[k].name, params: params}
+			if r.Bool(.3) && len(params) == len(defs[k].params) {
+				// same template text, only the parameter list changes order/names
+				nd.tmpl = defs[k].tmpl
+				for j, p := range defs[k].params {
+					nd.tmpl = strings.ReplaceAll(nd.tmpl, "unquote("+p+")", "unquote(\x00"+fmt.Sprint(j)+")")
+				}
+				for j := range params {
+					nd.tmpl = strings.ReplaceAll(nd.tmpl, "unquote(\x00"+fmt.Sprint(j)+")", "unquote("+params[len(params)-1-j]+")")
+				}
+			} else {
+				nd.tmpl = genTemplate(r, nd.params, 0, map[string]int{})
+			}
+			defs[k] = nd
+			version[nd.name]++
+			h.Events = append(h.Events, core.Event{Ev: "define", Tag: "redefine", Name: nd.name, N: version[nd.name], Args: nd.params, Val: nd.tmpl,
+				Text: fmt.Sprintf("%s = macro(%s) { quote(%s) }", nd.name, strings.Join(nd.params, ", "), nd.tmpl)})
 		}
 		d := core.Pick(r, defs)
 		call := &margs{macro: d.name}
@@ -196,7 +245,16 @@ func (c13) Generate(r *core.Rng, run int, tier string) *core.History {
 				return "println([" + e + ", " + e + "])"
 			}
 		}
-		h.Events = append(h.Events, core.Event{Ev: "use", Tag: fmt.Sprint("site", site), Text: wrap(call.src()), Val: wrap(call.subst(defmap))})
+		h.Events = append(h.Events, core.Event{Ev: "use", Tag: fmt.Sprint("site", site), Key: versionsOf(call.src()), Text: wrap(call.src()), Val: wrap(call.subst(defmap))})
+		if r.Bool(.15) {
+			// the same definitions and use delivered as ONE program text through eval() to a session that never saw a macro
+			var all []string
+			for _, x := range defs {
+				all = append(all, fmt.Sprintf("%s = macro(%s) { quote(%s) }", x.name, strings.Join(x.params, ", "), x.tmpl))
+			}
+			h.Events = append(h.Events, core.Event{Ev: "evaluse", Tag: fmt.Sprint("evalsite", site),
+				Text: strings.Join(all, "\n") + "\n" + wrap(call.src()), Val: wrap(call.subst(defmap))})
+		}
 	}
 	return h
 }
@@ -205,6 +263,17 @@ func parseProg(src string) (*ast.Statements, []string) {
 	p := parser.New(lexer.New(src))
 	prog := p.ParseProgram()
 	return prog, p.Errors()
+}
+
+// panics runs f and returns the panic message if it panicked ("" otherwise).
+func panics(f func()) (msg string) {
+	defer func() {
+		if r := recover(); r != nil {
+			msg = fmt.Sprint(r)
+		}
+	}()
+	f()
+	return ""
 }
 
 func printProg(n ast.Node, compact bool) string {
@@ -234,7 +303,9 @@ func (c13) Execute(h *core.History) *core.Outcome {
 	}
 	var first *keptUse
 	defined := map[string]bool{}
+	version := map[string]int64{}
 	preluded := false
+	preludeText := ""
 	for i := range h.Events {
 		e := &h.Events[i]
 		if e.Ev == "use" {
@@ -246,13 +317,40 @@ func (c13) Execute(h *core.History) *core.Outcome {
 					ok = false
 				}
 			}
+			// ... and one generated against another version of a (re)defined macro is not the recorded use either
+			if e.Key != "" {
+				for _, nv := range strings.Split(e.Key, ",") {
+					name, v, _ := strings.Cut(nv, ":")
+					if fmt.Sprint(version[name]) != v {
+						ok = false
+					}
+				}
+			}
 			if !ok {
 				continue
 			}
 		}
+		if e.Ev == "evaluse" && !preluded {
+			continue
+		}
 		switch e.Ev {
+		case "evaluse":
+			// fresh sessions without any macro: eval("<definitions + use>") against eval("<hand-substituted use>")
+			fr, fref := world.NewSession(cfg), world.NewSession(cfg)
+			st.Execs += 2
+			fr.Input(preludeText, nil)
+			fref.Input(preludeText, nil)
+			a := fr.Input("eval("+strconv.Quote(e.Text)+")", nil)
+			b := fref.Input("eval("+strconv.Quote(e.Val)+")", nil)
+			st.Fault("program_delivered_through_eval")
+			if asp := diffAspect(&b, &a); asp != "" {
+				fail(i, "evaluates-like-substitution", fmt.Sprintf("eval(%q) in a fresh session gives %s ; eval of the hand-substituted %q gives %s", trunc(e.Text, 400), a.Key(), trunc(e.Val, 300), b.Key()))
+			}
+			st.Ticks += fr.W.Ticks + fref.W.Ticks
+			shape = append(shape, "evaluse:"+a.Class)
 		case "prelude":
 			preluded = true
+			preludeText = e.Text
 			api.Input(e.Text, nil)
 			real.Input(e.Text, nil)
 			ref.Input(e.Text, nil)
@@ -274,6 +372,13 @@ func (c13) Execute(h *core.History) *core.Outcome {
 			api.St.DefineMacros(prog)
 			for _, n := range strings.Split(e.Name, ",") {
 				defined[n] = true
+				version[n] = 1
+				if e.N > 0 {
+					version[n] = e.N
+				}
+			}
+			if e.Tag == "redefine" {
+				st.Fault("macro_redefined_between_uses")
 			}
 			if len(prog.Statements) != 0 {
 				fail(i, "definition-removed", fmt.Sprintf("DefineMacros left %d statements of %q in the program", len(prog.Statements), trunc(e.Text, 200)))
@@ -305,6 +410,12 @@ func (c13) Execute(h *core.History) *core.Outcome {
 			cancelCtx()
 			if out := api.Out.Take(); out != before {
 				fail(i, "no-evaluation-during-expansion", fmt.Sprintf("expanding %q printed %q", trunc(e.Text, 200), out))
+			}
+			// a malformed expansion (nil operands...) makes the real printer or the dump panic: that is the
+			// expanded program not printing, not a harness failure
+			if msg := panics(func() { dumpAST(exp); printProg(exp, false); printProg(exp, true) }); msg != "" {
+				fail(i, "expanded-program-reprints", fmt.Sprintf("use %q: dumping/printing the expanded tree panics: %s", trunc(e.Text, 300), trunc(msg, 200)))
+				break
 			}
 			got, wantDump := dumpAST(exp), dumpAST(want)
 			if got != wantDump {
@@ -344,7 +455,7 @@ func (c13) Execute(h *core.History) *core.Outcome {
 	if st.Discarded {
 		o.Viol = nil
 	}
-	st.Ticks = real.W.Ticks + ref.W.Ticks
+	st.Ticks += real.W.Ticks + ref.W.Ticks
 	st.Shape = shapeOf(shape)
 	return o
 }
